@@ -20,7 +20,13 @@ impl FlattenedJson {
     /// Create a `FlattenedJson` from `Raw`.
     pub fn from_raw<T>(raw: &Raw<T>) -> Self {
         let mut s = Self { map: BTreeMap::new() };
-        s.flatten_value(to_json_value(raw).unwrap(), None);
+        // `Raw` accepts JSON that is nested deeper than the recursion limit of `serde_json`'s
+        // `Value` parser, so this conversion can fail for data received from a server. Such an
+        // event has no properties that a push rule could match on.
+        match to_json_value(raw) {
+            Ok(value) => s.flatten_value(value, None),
+            Err(error) => warn!("Failed to flatten JSON: {error}"),
+        }
         s
     }
 
